@@ -47,6 +47,12 @@ def gen_world(seed, tier):
             nums.insert(r3.randrange(len(nums) + 1), 0)          # 0 is a number too (the empty sum)
         if r3.random() < 0.08:
             nums.append(total)
+        r4 = random.Random(H(seed, "c15repeat"))
+        if r4.random() < 0.15:
+            # a list is not a set: the same number may be listed many times (it is still one number to generate)
+            x_ = r4.choice(nums)
+            for _ in range(r4.randint(2, 8)):
+                nums.insert(r4.randrange(len(nums) + 1), x_)
         args = {"numbers": nums, "total": total, "weight_type": rng.choice(["int", "int", "float"]),
                 "max_multiplicity": mult, "lowerbound": rng.choice([1, 1, 1, 2]), "solver_options": {}}
         if rng.random() < 0.3:
